@@ -409,7 +409,13 @@ def check_example(acc, what):
             if r.kind != "Done":
                 tried.append(r.kind)
                 continue
-            want = [ANSI.sub("", l) for l in Pretty.unmarshal(iter(r.raw))]
+            # the bundled captures contain a few messages with an out-of-range value (e.g. a ReadPublic of handle 0);
+            # `example` shows the fields of such a message without the warning: value warnings are not part of
+            # "what is shown" (D14); any other warning changes the field rows and is caught by the comparison
+            if any(e[0] == "W" and e[1] != "Value" for e in r.events):
+                tried.append("re-decoding reports " + ",".join(sorted({e[1] for e in r.events if e[0] == "W"})))
+                continue
+            want = [ANSI.sub("", l) for l in Pretty.unmarshal(e for e in r.raw if isinstance(e, ns.MarshalEvent))]
             if want == shown:
                 ok = True
                 break
